@@ -4,6 +4,7 @@ package main
 var instrPkgs = []string{
 	"lib/utxo", "lib/chain", "lib/btc", "lib/others/qdb", "lib/others/memory", "lib/others/sys",
 	"client/common", "client/txpool", "client/wallet", "client/peersdb", "client/network",
+	"client/mainlib", // generated in the scratch copy from client/*.go (package main -> importable), see mkMainlib
 }
 
 type tierParams struct {
@@ -44,7 +45,7 @@ var commonSim = []string{"goroutine scheduler (simrt: seeded token scheduler on 
 var specs = map[string]*propSpec{
 	"C19": {
 		ID: "C19", Harness: "qdbsim", Level: "fault_enumeration", Chunk: 40,
-		Quick:    tierParams{Runs: 1200, BudgetS: 60, PerRunS: 60, RaceRuns: 60, RaceBudgetS: 25, ShrinkAttempts: 200, ShrinkS: 60},
+		Quick:    tierParams{Runs: 3000, BudgetS: 60, PerRunS: 60, RaceRuns: 150, RaceBudgetS: 25, ShrinkAttempts: 200, ShrinkS: 60},
 		Thorough: tierParams{Runs: 40000, BudgetS: 900, PerRunS: 120, RaceRuns: 2000, RaceBudgetS: 240, ShrinkAttempts: 600, ShrinkS: 240},
 		Rule: "one case = seeded configuration (thresholds, volatile, load mode, key count) + operation history (put/del/get/browse/flags/sync/nosync/defrag/flush/close/reopen from 1-2 simulated client goroutines) + scheduler seed; every file-system effect of the history is a crash point (all of them in thorough, a seeded subset biased to renames/removes/first-last writes in quick), each recovered in a fresh DB instance and compared with the map model under the 'last synced or later written' relaxation; after recovery the store must accept further writes, sync, close and reopen exactly; torn last writes are explored and counted but not judged (outside the statement). evaluations = live histories + crash images recovered. distinct_nontrivial = distinct (schedule-trace hash, final-state hash) pairs among runs with >=2 goroutine switches or >=1 injected fault.",
 		Components: map[string][]string{
@@ -61,7 +62,7 @@ var specs = map[string]*propSpec{
 	},
 	"C16": {
 		ID: "C16", Harness: "blockdbsim", Level: "exploration", Chunk: 25,
-		Quick:    tierParams{Runs: 1500, BudgetS: 60, PerRunS: 120, RaceRuns: 80, RaceBudgetS: 30, ShrinkAttempts: 200, ShrinkS: 60},
+		Quick:    tierParams{Runs: 5000, BudgetS: 60, PerRunS: 120, RaceRuns: 250, RaceBudgetS: 30, ShrinkAttempts: 200, ShrinkS: 60},
 		Thorough: tierParams{Runs: 60000, BudgetS: 900, PerRunS: 300, RaceRuns: 3000, RaceBudgetS: 300, ShrinkAttempts: 600, ShrinkS: 240},
 		Rule: "one case = option set (compression, cache 1-8, max data-file size 4 KiB-1 MiB or unlimited, files to keep 0-3, backup) + 2-40 blocks of 81 B-1 MiB (4 MB and the 16 MB flush threshold in a few thorough/quick cases; five content classes for snappy) + history of add / re-add trusted / get (3 API paths) / length / trusted / invalid / idle / tick / close+reopen, the writer on one simulated goroutine and 0-3 reader goroutines, + scheduler seed. Oracle: map model hash->(bytes, trusted, height, txs, invalid) with data-file assignment observed from the effect log (retention rule), exact index listing after every reopen, append-after-reopen, porcupine on concurrent histories. distinct_nontrivial = distinct (schedule-trace hash, final-state hash) among runs with >=2 goroutine switches.",
 		Components: map[string][]string{
@@ -78,7 +79,7 @@ var specs = map[string]*propSpec{
 	},
 	"C20": {
 		ID: "C20", Harness: "memsim", Level: "exploration", Chunk: 20, HangIsViolation: false,
-		Quick:    tierParams{Runs: 1200, BudgetS: 60, PerRunS: 120, RaceRuns: 60, RaceBudgetS: 30, ShrinkAttempts: 200, ShrinkS: 60},
+		Quick:    tierParams{Runs: 2400, BudgetS: 60, PerRunS: 120, RaceRuns: 120, RaceBudgetS: 30, ShrinkAttempts: 200, ShrinkS: 60},
 		Thorough: tierParams{Runs: 40000, BudgetS: 900, PerRunS: 300, RaceRuns: 2000, RaceBudgetS: 300, ShrinkAttempts: 600, ShrinkS: 240},
 		Rule: "one case = 1-16 simulated client goroutines issuing Malloc(size)/verify/Free (sizes at every class boundary +-1, 0, tiny, private-mapping path up to 200 KiB; optionally concentrated on three hot sizes), barriers, hand-over of allocations between goroutines, bursts that fragment a big size class beyond the defragmentation threshold followed by DefragAllImproved with 0-3 concurrent readers, + scheduler seed. Oracle: shadow table (length, capacity, data pointer = header+24, fill pattern derived from the allocation id, pairwise disjoint extents, Allocs == live, relocate exactly once per moved allocation with the new location already holding the bytes, untouched non-moved allocations). distinct_nontrivial = distinct (schedule-trace hash, final-state hash) among runs with >=2 goroutine switches.",
 		Components: map[string][]string{
@@ -116,7 +117,7 @@ var chainComponents = map[string][]string{
 func chainSpec(id, level string) *propSpec {
 	return &propSpec{
 		ID: id, Harness: "chainsim", Level: level, Chunk: 6, Workers: 16,
-		Quick:    tierParams{Runs: 400, BudgetS: 75, PerRunS: 120, RaceRuns: 0, RaceBudgetS: 0, ShrinkAttempts: 120, ShrinkS: 90},
+		Quick:    tierParams{Runs: 900, BudgetS: 75, PerRunS: 120, RaceRuns: 0, RaceBudgetS: 0, ShrinkAttempts: 120, ShrinkS: 90},
 		Thorough: tierParams{Runs: 20000, BudgetS: 1200, PerRunS: 300, RaceRuns: 0, RaceBudgetS: 0, ShrinkAttempts: 400, ShrinkS: 300},
 		Rule: "one case = rule-set parameters (activation heights, main/test-net difficulty rule, block-store and snapshot knobs) + a block tree grown by the simulated miner on top of a 115-block prefix (forks of depth 1-6, equal-work siblings, children of invalid blocks, blocks violating one contextual rule) + a delivery schedule (reordering, duplicates, losses, late arrivals) interleaved with idle/save/tick/reopen + scheduler seed. distinct_nontrivial = distinct (schedule-trace hash, final tip + unspent-set size) among runs with >=2 goroutine switches or >=1 injected fault.",
 		Components: chainComponents,
@@ -132,7 +133,7 @@ func chainSpec(id, level string) *propSpec {
 func c07Spec() *propSpec {
 	s := chainSpec("C07", "fault_enumeration")
 	s.Chunk = 3
-	s.Quick = tierParams{Runs: 90, BudgetS: 80, PerRunS: 300, ShrinkAttempts: 80, ShrinkS: 120}
+	s.Quick = tierParams{Runs: 110, BudgetS: 80, PerRunS: 300, ShrinkAttempts: 80, ShrinkS: 120}
 	s.Thorough = tierParams{Runs: 4000, BudgetS: 1500, PerRunS: 1200, ShrinkAttempts: 300, ShrinkS: 400}
 	s.Rule = "one case = a chain history as in C06 (extend the tip, save through Idle/Save with paced and unpaced snapshot writers, blocks arriving while a save is running, reorganisations after a completed save, invalid side blocks, data-file roll-over, clean restarts) executed once under the deterministic scheduler with the complete file-system effect log recorded; then the data directory as the kernel had it just before effect k is materialised (every k in thorough; a seeded subset weighted towards renames/removes/creates, index records, flag bytes and effects of background goroutines in quick), opened by a fresh node through the library recovery path or the client's start-up loop, judged (opens; tip is a ledger-valid block delivered before the crash; unspent set = replay of that tip), re-fed the whole history (same final work and exact unspent set as the uninterrupted run) . evaluations = histories + crash images recovered; distinct_nontrivial = distinct (schedule-trace hash, final state) among runs with >= 1 crash image."
 	s.Assumptions = append(s.Assumptions, "process-death crash model: what was handed to the kernel survives, user-space buffers do not; no power-loss reordering", "after a crash an equally valid tip of equal work is accepted as 'same final state' (first-seen order is not durable)")
@@ -143,7 +144,7 @@ func c07Spec() *propSpec {
 func c11Spec() *propSpec {
 	s := chainSpec("C11", "exploration")
 	s.Chunk = 4
-	s.Quick = tierParams{Runs: 260, BudgetS: 60, PerRunS: 300, RaceRuns: 40, RaceBudgetS: 60, ShrinkAttempts: 80, ShrinkS: 120}
+	s.Quick = tierParams{Runs: 500, BudgetS: 60, PerRunS: 300, RaceRuns: 60, RaceBudgetS: 60, ShrinkAttempts: 80, ShrinkS: 120}
 	s.Thorough = tierParams{Runs: 12000, BudgetS: 1200, PerRunS: 900, RaceRuns: 1500, RaceBudgetS: 900, ShrinkAttempts: 300, ShrinkS: 400}
 	s.Rule = "one case = a history of 6-14 fan-out blocks (8-45 transactions: several hashing packs, more than 32 spent and created records, in-block spend chains) with a snapshot started (Idle / operator save, paced 0-5 s) before most blocks so that the next block aborts it in an arbitrary phase, HurryUp, forced map defragmentation, Close during a save, clean restarts; yield probability 0.05-0.5 at every scheduling point, seeded lock hand-over, timers racing with runnable goroutines. Oracles: verdicts, tip and decoded unspent set equal the reference ledger (schedule independence); every snapshot is parsed at the instant it is renamed to UTXO.db and must equal the ledger's unspent set of exactly the block in its header; no *.db.tmp survives Close; no deadlock; the race-detector arm repeats seeds with the simulator's hand-over edges hidden. distinct_nontrivial = distinct (schedule-trace hash, final state)."
 	s.ExpectProbes = []string{"snapshot_became_visible", "defrag_map", "reorg", "idle_started_save", "explicit_save"}
@@ -152,7 +153,7 @@ func c11Spec() *propSpec {
 
 func c17Spec() *propSpec {
 	s := chainSpec("C17", "exploration")
-	s.Quick = tierParams{Runs: 320, BudgetS: 60, PerRunS: 300, RaceRuns: 24, RaceBudgetS: 45, ShrinkAttempts: 80, ShrinkS: 120}
+	s.Quick = tierParams{Runs: 600, BudgetS: 60, PerRunS: 300, RaceRuns: 40, RaceBudgetS: 45, ShrinkAttempts: 80, ShrinkS: 120}
 	s.Thorough = tierParams{Runs: 16000, BudgetS: 1200, PerRunS: 900, RaceRuns: 1000, RaceBudgetS: 600, ShrinkAttempts: 300, ShrinkS: 400}
 	s.Rule = "one case = a chain history as in C06 (reorganisations, invalid blocks, restarts; 30% with fan-out blocks whose 32-record insert/delete batches fire the callbacks concurrently) with client/wallet attached the way the client does it (LoadBalancesFromUtxo installs NotifyTxAdd/Del), list->map switch-over at 2-6 outputs, minimum value 0 / 1000 / 5 / 15 / 25 BTC, outputs to ~70 addresses of the five indexed types plus OP_TRUE, OP_RETURN and odd scripts, index switched off and rebuilt from the populated set mid-history. After every delivery, for every address ever paid: the (txid, vout, value, height, coinbase) multiset from wallet.GetAllUnspent equals the projection of the reference ledger's unspent set at or above the minimum, and per address type the number of addresses, outputs and the total from wallet.Browse equal the projection's."
 	s.Components = map[string][]string{
@@ -167,7 +168,7 @@ func c17Spec() *propSpec {
 func c02Spec() *propSpec {
 	return &propSpec{
 		ID: "C02", Harness: "sigsim", Level: "exploration", Chunk: 60, Workers: 16,
-		Quick:    tierParams{Runs: 3000, BudgetS: 30, PerRunS: 60, RaceRuns: 200, RaceBudgetS: 25, ShrinkAttempts: 150, ShrinkS: 60},
+		Quick:    tierParams{Runs: 6000, BudgetS: 30, PerRunS: 60, RaceRuns: 400, RaceBudgetS: 25, ShrinkAttempts: 150, ShrinkS: 60},
 		Thorough: tierParams{Runs: 200000, BudgetS: 600, PerRunS: 120, RaceRuns: 10000, RaceBudgetS: 300, ShrinkAttempts: 400, ShrinkS: 200},
 		Also:     []alsoSpec{{Harness: "chainsim", Chunk: 6, QuickRuns: 200, QuickBudgetS: 45, ThoroughRuns: 8000, ThoroughBudgetS: 900}},
 		Rule: "two arms. (1) cache clause: one btc.Tx object with 1-8 inputs (P2PKH, P2WPKH, P2SH-P2WPKH, P2TR coins) and 1-8 outputs; 1-8 simulated goroutines issue 2-64 digest requests (legacy incl. 4-byte hash types, BIP143, BIP341 key path with and without annex, tapscript; all seven defined hash types, in and out of SIGHASH_SINGLE range) in a seeded order and interleaving (yield inside the hashLock critical section); every digest must equal the one a FRESH object returns for that single request, and - where the harness's own implementation of the BIP covers the request - the definition; a race-detector arm repeats seeds. (2) two-party clause: chain histories (as C04) whose every transaction is signed by the independent signer over its own digests with drawn hash types; a block the ledger calls valid must not be refused for a script failure and a block with a corrupted signature (four kinds, incl. the two taproot cases where no digest is defined) must not be connected. distinct_nontrivial = distinct (schedule-trace hash, digest-set hash / final state).",
@@ -187,7 +188,7 @@ func c02Spec() *propSpec {
 func c12Spec() *propSpec {
 	return &propSpec{
 		ID: "C12", Harness: "poolsim", Level: "exploration", Chunk: 1, Workers: 16, // one case per process: txpool keeps unexported package state (expiry timer)
-		Quick:    tierParams{Runs: 320, BudgetS: 75, PerRunS: 300, RaceRuns: 0, ShrinkAttempts: 120, ShrinkS: 120},
+		Quick:    tierParams{Runs: 900, BudgetS: 75, PerRunS: 300, RaceRuns: 0, ShrinkAttempts: 120, ShrinkS: 120},
 		Thorough: tierParams{Runs: 16000, BudgetS: 1200, PerRunS: 900, RaceRuns: 0, ShrinkAttempts: 400, ShrinkS: 400},
 		Rule: "one case = pool options (full/opt-in RBF, expiry 1-14 days, reject-ring size, fee floor, block-commit flag, optional eviction scenario of 125 transactions of ~100 kB) + 4-120 operations, each with its own seed: submit a transaction through the peer / local / trusted path (valid, child and diamond of unconfirmed parents, double spend with lower and higher fee, orphan before parent and the parent later, corrupted signature, overspend, immature coinbase, duplicate of a pooled/rejected/mined transaction, same input twice, non-final), a descendant chain of up to 130 followed by a replacement of its root, mine a block from the pool's own fee-ordered listing / with unknown and conflicting transactions / empty, reorganise 1-3 blocks, clock jumps of 1 s - 16 days followed by Tick(), reject-ring resize, save + reload. After every operation the stated invariants are recomputed from the exported pool state and the reference ledger; a block assembled from a listing prefix must be valid per the ledger and accepted by the node. distinct_nontrivial = distinct (schedule-trace hash, final state).",
 		Components: map[string][]string{
@@ -206,8 +207,8 @@ func c12Spec() *propSpec {
 
 func c18Spec() *propSpec {
 	return &propSpec{
-		ID: "C18", Harness: "netsim", Level: "exploration", Chunk: 4, Workers: 16, HangIsViolation: true,
-		Quick:    tierParams{Runs: 400, BudgetS: 75, PerRunS: 240, RaceRuns: 0, ShrinkAttempts: 120, ShrinkS: 120},
+		ID: "C18", Harness: "netsim", Level: "exploration", Chunk: 1, Workers: 16, HangIsViolation: true, // one case per process: client/network keeps package-level maps (blocks to get, received, discarded)
+		Quick:    tierParams{Runs: 1500, BudgetS: 75, PerRunS: 240, RaceRuns: 0, ShrinkAttempts: 120, ShrinkS: 120},
 		Thorough: tierParams{Runs: 20000, BudgetS: 1200, PerRunS: 900, RaceRuns: 0, ShrinkAttempts: 400, ShrinkS: 400},
 		Rule: "one case = 1-4 simulated peers, each sending 1-40 messages drawn from all commands of the property's list plus unknown ones, before and after version; payloads valid (built from the node's real state: real hashes, locators, new valid headers/blocks/transactions, fully prefilled compact blocks), or valid with one structural mutation (bit flips, truncation, trailing garbage, count field replaced by other values / non-minimal / 2^64-1 encodings, empty, per-command maximum size), or random bytes; header mutations (magic, checksum, length shorter / longer / huge); delivery with fragmentation 1 byte .. whole message, pauses around the 10 ms read deadline, resets inside a message; all interleavings of readers, writers, the main-loop stub and other peers chosen by the scheduler. Oracles: Run() never returns without having closed its connection (escaped panic), the connection goroutine holds no lock whenever it re-enters Read() or ends, no message costs more than 2e6 scheduler steps, no deadlock / os.Exit / fatal error, connection goroutines end within 10 simulated s after hang-up, the main loop keeps ticking and a fresh well-behaved peer gets its pong within 5 simulated s.",
 		Components: map[string][]string{
